@@ -541,6 +541,10 @@ impl Store {
         let nanos = SystemTime::UNIX_EPOCH
             .elapsed()
             .map(|duration| duration.as_nanos() as u64)?;
+        #[cfg(iroh_docs_verif)]
+        let nanos = crate::verif::clock_micros()
+            .map(|micros| micros.saturating_mul(1000))
+            .unwrap_or(nanos);
         self.modify(|tables| {
             // ensure the document exists
             anyhow::ensure!(
